@@ -24,6 +24,8 @@ SHARDS = {"quick": 8, "thorough": 16}
 # fixed). VERIF_C16_NO_EXCLUSIONS=1 switches the exclusion off (used to validate the proposed patch on a scratch copy).
 _NOEXCL = os.environ.get("VERIF_C16_NO_EXCLUSIONS", "") == "1"
 F_CT = "C16-czerny-no-pipeline-classes"    # CzernyTurnerSpectrometer: pipeline_classes / create_pipelines() raise AttributeError
+F_ACC = "C16-acc-list-aliased"             # accommodated_spectra setter keeps the caller's (mutable) list
+F_FIL = "C16-filters-list-aliased"         # Polychromator.filters setter keeps the caller's (mutable) list
 
 
 def _open(fid):
